@@ -126,6 +126,37 @@ func (w *prodWorld) memberSigners(r *simkit.Run, enough bool) (signers []base.Lo
 	return signers, k
 }
 
+// forgeMemberSigns adds, now and then, signs that name members who did not sign, made with a key that is not theirs:
+// well-formed node signs (each verifies against the key it carries) that must not count as the members' approval.
+func (w *prodWorld) forgeMemberSigns(r *simkit.Run, signers []base.LocalNode, sign func(base.Privatekey, base.Address)) int {
+	if !r.Chance(1, 4) {
+		return 0
+	}
+
+	n := 0
+
+	for _, m := range w.members {
+		signed := false
+
+		for _, s := range signers {
+			if s.Address().Equal(m.Address()) {
+				signed = true
+			}
+		}
+
+		if !signed {
+			sign(common.Local(95).Privatekey(), m.Address())
+			n++
+		}
+	}
+
+	if n > 0 {
+		r.Probe("forged_member_signs")
+	}
+
+	return n
+}
+
 func prodBuildOps(r *simkit.Run, w *prodWorld) []prodOp {
 	var ops []prodOp
 
@@ -173,7 +204,13 @@ func prodBuildOps(r *simkit.Run, w *prodWorld) []prodOp {
 				_ = op.NodeSign(f.Privatekey(), common.NetworkID, f.Address())
 			}
 
-			ops = append(ops, prodOp{desc: fmt.Sprintf("join %s start-ok=%v self=%v member-signs=%d", c.node.Address(), startOK, self, distinct),
+			forged := w.forgeMemberSigns(r, signers, func(key base.Privatekey, a base.Address) {
+				if err := op.NodeSign(key, common.NetworkID, a); err != nil {
+					panic(err)
+				}
+			})
+
+			ops = append(ops, prodOp{desc: fmt.Sprintf("join %s start-ok=%v self=%v member-signs=%d forged-member-signs=%d", c.node.Address(), startOK, self, distinct, forged),
 				op: op, kind: "join", target: c.node.Address(), selfSigned: self, memberSigns: distinct, startOK: startOK})
 		case 2: // candidate
 			var n base.LocalNode
@@ -239,6 +276,12 @@ func prodBuildOps(r *simkit.Run, w *prodWorld) []prodOp {
 				f := common.Local(85)
 				_ = op.NodeSign(f.Privatekey(), common.NetworkID, f.Address())
 			}
+
+			_ = w.forgeMemberSigns(r, signers, func(key base.Privatekey, a base.Address) {
+				if err := op.NodeSign(key, common.NetworkID, a); err != nil {
+					panic(err)
+				}
+			})
 
 			ops = append(ops, prodOp{desc: fmt.Sprintf("policy max-ops=%d member-signs=%d", p.MaxOperationsInProposal(), distinct), op: op, kind: "policy", memberSigns: distinct})
 		}
